@@ -31,8 +31,18 @@ def cases(draw, tier="quick", revealing=None):
                             reward_lo=0 if nonneg else -3, gammas=[0.3, 0.5, 0.7, 0.8]))
     nb = draw(st.integers(1, 3))
     beliefs = [draw(belief_weights(spec["n"])) for _ in range(nb)]
+    horizon = draw(st.sampled_from([None, 1, 2, 3, 4]))
+    if draw(st.integers(0, 5)) == 0:
+        # rewards in a narrow band far from zero (step costs -10 .. -10.25 or prizes 8 .. 8.5) and a generous explicit
+        # horizon: the run should end through its convergence threshold, not through the horizon
+        base, step = draw(st.sampled_from([(-10.0, -0.25), (8.0, 0.5), (-4.0, -0.125)]))
+        for s_ in range(spec["n"]):
+            for a_, outs in spec["trans"][s_]:
+                for o_ in outs:
+                    o_[2] = base + step * (o_[2] % 2)
+        horizon = draw(st.sampled_from([30, 60, 200]))
     return {"pomdp": spec, "beliefs": beliefs, "revealing": rev,
-            "eps": draw(st.sampled_from([0, 1e-6, 1e-2])), "horizon": draw(st.sampled_from([None, 1, 2, 3, 4])),
+            "eps": draw(st.sampled_from([0, 1e-6, 1e-2])), "horizon": horizon,
             "min_exp": draw(st.integers(0, 3)), "extra_exp": draw(st.integers(0, 2))}
 
 
@@ -76,11 +86,27 @@ def prop_backup(case, ctx):
     informative = False
     for b in B:
         val = float(np.max(alphas @ to_msdm_vec(b, sl)))
-        vk = max(arr.vk(b, it), arr.vk(b, it + 1))
-        ctx.check(val <= vk + TOL * scale, "C08.backup.alpha_value_exceeds_k_step_optimum",
-                  lambda: f"belief {b.tolist()}: alpha value {val} > V*_k {vk} (k in {{{it},{it + 1}}})")
+        if it <= 4:      # (the expectimax oracle is exponential in the depth)
+            vk = max(arr.vk(b, it), arr.vk(b, it + 1))
+            ctx.check(val <= vk + TOL * scale, "C08.backup.alpha_value_exceeds_k_step_optimum",
+                      lambda: f"belief {b.tolist()}: alpha value {val} > V*_k {vk} (k in {{{it},{it + 1}}})")
         ctx.check(val <= arr.upper(b, 4) + max(0.0, -arr.rmin) * arr.gamma ** it / (1 - arr.gamma) + TOL * scale,
                   "C08.backup.alpha_value_exceeds_optimal_plus_slack", lambda: f"belief {b.tolist()}: {val}")
+    if eps > 0 and 1 <= it < horizon - 1:
+        # the run ended before its horizon: then it ended through the convergence threshold, i.e. backup number it+1
+        # moves no belief point's value by eps or more, and what is returned is the result of exactly `it` backups
+        # (both recomputed with the threshold switched off)
+        ra = ctx.call("C08.backup.raises", point_based_value_iteration, pomdp, Bm, 0, it)
+        rb = ctx.call("C08.backup.raises", point_based_value_iteration, pomdp, Bm, 0, it + 1)
+        va = np.einsum("bs,bs->b", np.asarray(ra["alpha_vectors"]), Bm)
+        vb = np.einsum("bs,bs->b", np.asarray(rb["alpha_vectors"]), Bm)
+        v0 = np.einsum("bs,bs->b", alphas, Bm)
+        ctx.check(float(np.abs(va - vb).max()) < eps * (1 + 1e-9) + 1e-12, "C08.backup.stopped_before_threshold_and_horizon",
+                  lambda: f"stopped after {it} of {horizon} backups although the next backup still moves a belief value by "
+                          f"{float(np.abs(va - vb).max())} >= eps = {eps}")
+        ctx.check(float(np.abs(v0 - va).max()) <= TOL * scale, "C08.backup.early_stop_result_is_not_the_reported_backup_count",
+                  lambda: f"reported iterations {it}; values differ from {it} plain backups by {float(np.abs(v0 - va).max())}")
+        ctx.event("stopped_by_threshold")
     if eps == 0:
         # no early stop: exactly `horizon` backups
         for bi, b in enumerate(B):
@@ -89,7 +115,7 @@ def prop_backup(case, ctx):
                 want = float(np.max(b @ arr.SR))
                 ctx.check(abs(val - want) <= TOL * scale, "C08.backup.one_step_value_is_best_immediate_reward",
                           lambda: f"belief {b.tolist()}: {val} vs {want}")
-            if case["revealing"]:
+            if case["revealing"] and horizon <= 4:
                 want = arr.vk(b, horizon)
                 ctx.check(abs(float(np.max(alphas @ to_msdm_vec(b, sl))) - want) <= TOL * scale,
                           "C08.backup.revealing_value_is_k_step_optimum", lambda: f"belief {b.tolist()}: {val} vs V*_{horizon} {want}")
@@ -140,7 +166,7 @@ def prop_planner(case, ctx):
         as_dist = DictDistribution({s: float(b[i]) for s, i in zip(pomdp.state_list, sl) if b[i] > 0})
         ctx.check(abs(float(res.policy.value(as_dist)) - val) <= 1e-9 * scale, "C08.pbvi.value_depends_on_belief_representation",
                   lambda: f"belief {b.tolist()}: value(Distribution) {res.policy.value(as_dist)} vs value(Belief) {val}")
-        if horizon is not None:
+        if horizon is not None and horizon <= 4:
             vmax = max(arr.vk(b, k) for k in range(0, horizon + 1))
             ctx.check(val <= vmax + TOL * scale, "C08.pbvi.value_exceeds_finite_horizon_optimum",
                       lambda: f"belief {b.tolist()}: PBVI {val} > max_k<=H V*_k = {vmax} (H={horizon})")
